@@ -283,6 +283,8 @@ impl InsertionHeuristic {
             match result {
                 InsertionResult::Success(success) => {
                     apply_insertion_success(&mut insertion_ctx, success);
+                    #[cfg(reinterpretcat_vrp_verif)]
+                    verif_hooks::notify(&insertion_ctx);
                 }
                 InsertionResult::Failure(failure) => {
                     // NOTE copy data to make borrow checker happy
@@ -452,4 +454,29 @@ fn copy_selection_data(
     let jobs = jobs.iter().map(|&job| job.clone()).collect::<Vec<_>>();
 
     (route_indices, jobs)
+}
+
+/// Verification-only observer (guarded by `--cfg reinterpretcat_vrp_verif`): lets a harness look at
+/// the insertion context right after every applied insertion inside [`InsertionHeuristic::process`].
+#[cfg(reinterpretcat_vrp_verif)]
+pub mod verif_hooks {
+    use super::InsertionContext;
+    use std::sync::{Arc, RwLock};
+
+    /// An observer function type.
+    pub type Observer = Arc<dyn Fn(&InsertionContext) + Send + Sync>;
+
+    static OBSERVER: RwLock<Option<Observer>> = RwLock::new(None);
+
+    /// Sets or clears process-wide observer.
+    pub fn set_insertion_observer(observer: Option<Observer>) {
+        *OBSERVER.write().unwrap() = observer;
+    }
+
+    pub(super) fn notify(insertion_ctx: &InsertionContext) {
+        let observer = OBSERVER.read().unwrap().clone();
+        if let Some(observer) = observer {
+            observer(insertion_ctx);
+        }
+    }
 }
